@@ -105,15 +105,19 @@ def orderedFrom : Prog → List (Nat × Mode) → Bool
 
 def ordered (p : Prog) : Bool := orderedFrom p []
 
-/-- single-threaded execution never blocks and no timed acquisition fails (C12, lock part) -/
-def runsAlone (p : Prog) : Bool :=
-  let rec go : Prog → List (Nat × Mode) → Bool
-    | [], _ => true
-    | .rel l m :: rest, held => go rest (releaseOne held l m)
-    | .acq l m :: rest, held | .tryAcq l m :: rest, held =>
-      (match m with
-        | .write => !held.any (·.1 == l)
-        | .read => !held.any (fun h => h.1 == l && h.2 == .write)) && go rest ((l, m) :: held)
-  go p []
+/-- single-threaded run of a program from a given set of held locks: `none` if it would block for ever
+(a lock the thread itself holds in a conflicting mode) or a timed acquisition would fail, otherwise the
+locks still held at the end -/
+def runAlone : Prog → List (Nat × Mode) → Option (List (Nat × Mode))
+  | [], held => some held
+  | .rel l m :: rest, held => runAlone rest (releaseOne held l m)
+  | .acq l m :: rest, held | .tryAcq l m :: rest, held =>
+    let free : Bool := match m with
+      | .write => !held.any (·.1 == l)
+      | .read => !held.any (fun h => h.1 == l && h.2 == .write)
+    if free then runAlone rest ((l, m) :: held) else none
+
+/-- single-threaded execution never blocks, no timed acquisition fails, and every lock is released (C12, lock part) -/
+def runsAlone (p : Prog) : Bool := runAlone p [] == some []
 
 end AV.Locks
